@@ -2,7 +2,6 @@ package http2utils
 
 import (
 	"bytes"
-	"crypto/rand"
 	"fmt"
 	"log"
 	"path/filepath"
@@ -102,7 +101,9 @@ func AddPadding(b []byte) []byte {
 
 	b[0] = uint8(n)
 
-	_, _ = rand.Read(b[nn+1 : nn+n])
+	// https://httpwg.org/specs/rfc7540.html#rfc.section.6.1
+	// Padding octets MUST be set to zero when sending.
+	clear(b[nn+1:])
 
 	return b
 }
